@@ -7,7 +7,11 @@ package graph
 import (
 	apiv1 "k8s.io/api/core/v1"
 	"k8s.io/apimachinery/pkg/types"
+	"k8s.io/apimachinery/pkg/util/validation/field"
+	gatewayv1 "sigs.k8s.io/gateway-api/apis/v1"
 	"sigs.k8s.io/gateway-api/apis/v1alpha3"
+
+	"github.com/nginx/nginx-gateway-fabric/internal/mode/static/state/validation"
 )
 
 // VerifC05ValidateBTP runs the real validateBackendTLSPolicy and reports what
@@ -20,4 +24,53 @@ func VerifC05ValidateBTP(
 ) (valid, ignored, full bool, nconds int) {
 	v, ig, conds := validateBackendTLSPolicy(btp, newConfigMapResolver(configMaps), ctlrName)
 	return v, ig, backendTLSPolicyAncestorsFull(btp.Status.Ancestors, ctlrName), len(conds)
+}
+
+// ---- task C05-nil: the functions whose implicit panic sites are mirrored in lean/NGF/Model/NilGuards.lean ----
+
+// VerifC05ValidateFilter runs the real validateFilter and returns the number of errors.
+func VerifC05ValidateFilter(v validation.HTTPFieldsValidator, f Filter) int {
+	return len(validateFilter(v, f, field.NewPath("filter")))
+}
+
+// VerifC05ValidatePathMatch runs the real validatePathMatch and returns the number of errors.
+func VerifC05ValidatePathMatch(v validation.HTTPFieldsValidator, p *gatewayv1.HTTPPathMatch) int {
+	return len(validatePathMatch(v, p, field.NewPath("path")))
+}
+
+// VerifC05BuildListeners runs the real buildListeners (getConfiguratorForListener, the validators, the conflict
+// and external reference resolvers) on the Gateway's listeners.
+func VerifC05BuildListeners(gw *gatewayv1.Gateway, secrets map[types.NamespacedName]*apiv1.Secret) []*Listener {
+	return buildListeners(gw, newSecretResolver(secrets), newReferenceGrantResolver(nil), ProtectedPorts{})
+}
+
+// VerifC05CreateBackendRef runs the real createBackendRef (validateRouteBackendRef, getIPFamilyAndPortFromRef, …).
+func VerifC05CreateBackendRef(
+	ref gatewayv1.BackendRef,
+	nFilters int,
+	routeNs string,
+	granted bool,
+	services map[types.NamespacedName]*apiv1.Service,
+) (valid, hasCond bool) {
+	rb := RouteBackendRef{BackendRef: ref}
+	for i := 0; i < nFilters; i++ {
+		rb.Filters = append(rb.Filters, struct{}{})
+	}
+	br, cond := createBackendRef(rb, routeNs, func(toResource) bool { return granted }, services,
+		field.NewPath("backendRefs").Index(0), nil, nil)
+	return br.Valid, cond != nil
+}
+
+// VerifC05ProcessBTP runs the real processBackendTLSPolicies on one policy with a Gateway present.
+func VerifC05ProcessBTP(
+	btp *v1alpha3.BackendTLSPolicy,
+	configMaps map[types.NamespacedName]*apiv1.ConfigMap,
+	ctlrName string,
+) (valid bool, nconds int) {
+	gw := &Gateway{Source: &gatewayv1.Gateway{}}
+	gw.Source.Namespace, gw.Source.Name = "default", "gw0"
+	key := types.NamespacedName{Namespace: btp.Namespace, Name: btp.Name}
+	out := processBackendTLSPolicies(map[types.NamespacedName]*v1alpha3.BackendTLSPolicy{key: btp},
+		newConfigMapResolver(configMaps), ctlrName, gw)
+	return out[key].Valid, len(out[key].Conditions)
 }
